@@ -922,7 +922,7 @@ fn tier_params(prop: &str, tier: &str) -> Tier {
         ("C01", "quick") => Tier {
             runs: 60_000,
             batch: 250,
-            max_wall: 150,
+            max_wall: 300,
             minimise_budget: 40,
         },
         ("C01", _) => Tier {
@@ -934,7 +934,7 @@ fn tier_params(prop: &str, tier: &str) -> Tier {
         ("C10", "quick") => Tier {
             runs: 30_000,
             batch: 200,
-            max_wall: 150,
+            max_wall: 300,
             minimise_budget: 40,
         },
         _ => Tier {
